@@ -78,6 +78,11 @@ def units(ctx):
     from contracts import utils as _ut
     from vlib.pyvc.unit import contract_unit as _cu2
     us += [_cu2(c, world_setup=_ut.setup) for c in _ut.predicate_contracts()]
+    from contracts import core_glue as _cg
+    from vlib.pyvc.unit import contract_unit as _cu3
+    us += [_cu3(c, world_setup=_cg.setup) for c in _cg.contracts()
+           if c.short in ('factory.YaqlEngine.__call__',
+                          'factory.YaqlEngine.copy')]
     from props._common import bounded_unit
     us.append(bounded_unit(
         'bounded:c08-limits', 'c08_limits.py',
